@@ -47,6 +47,13 @@ CLAIMS = {
             'every returned instant has the requested characters and one lies inside the originating double-hour.',
             'Numeric layer replaced by oracles as in C08. Completeness of the inverse search over arbitrary ranges on the real calendar is not decided.',
             'DESIGN.md §3 C09'),
+    'C15': ('real series code evaluated by PETE on scenario calendars (numeric layer replaced by oracles) vs piecewise oracles',
+            'Nines (every day of a year, 16 solstice placements incl. mid-December solstices), Dog days (60 scenarios: every stem of the solstice '
+            'day x 6 start-of-autumn placements, every day June..September, both 10/20-day branches), Plum rains (120 scenarios: every stem/branch '
+            'of the two anchoring days), pentads and term-day index (every day of a year) and the commanding-stem allotment (12 months x every day '
+            'index) are evaluated from the syntax tree and compared with the defining rules; the classical allotment table is an independent oracle.',
+            'Numeric layer replaced by oracles: which civil day a term falls on and which day is Geng/Bing/Wei on the real calendar are C05/C06/C07. '
+            'Pentad names are only required to be 72 distinct names.', 'DESIGN.md §3 C15'),
 }
 
 PENDING_REASON = 'check not built yet (DESIGN.md gives the planned static clauses); will be claimed once its rule engine exists'
